@@ -75,12 +75,25 @@ def compute_unwindset(repo, crate, names, rules, features=None, log=None):
         files += glob.glob(os.path.join(tdir, "kani", "*", "debug", "deps", "*%d%s.out" % (len(n), n)))
         if not files: continue
         f = max(files, key=os.path.getmtime)
+        # recursion: CBMC bounds a recursive function through the same option, keyed by the function identifier
+        pm = f[:-4] + ".pretty_name_map.json"
+        if os.path.exists(pm):
+            try:
+                names_map = json.load(open(pm))
+            except ValueError:
+                names_map = {}
+            for mangled, pretty in names_map.items():
+                if mangled.startswith("tag-") or not isinstance(pretty, str): continue
+                for rx, k in rules:
+                    if rx.startswith("rec:") and re.search(rx[4:], pretty):
+                        ids[mangled] = k
+                        break
         q = subprocess.run(["cbmc", "--show-loops", f], capture_output=True, text=True)
         for m in re.finditer(r"^Loop (\S+):\n\s+file (\S+) line (\d+)(?: column \d+)? function (.*)$", q.stdout, re.M):
             lid, file_, line, fn = m.group(1), m.group(2), m.group(3), m.group(4)
             text = "%s %s:%s" % (fn, file_, line)
             for rx, k in rules:
-                if re.search(rx, text):
+                if not rx.startswith("rec:") and re.search(rx, text):
                     ids[lid] = max(ids.get(lid, 0), k) if False else k
                     break
     return ",".join("%s:%d" % (a, b) for a, b in sorted(ids.items()))
